@@ -1,6 +1,31 @@
 import Driver.CbufDrv
+import Driver.HlDrv
+import Driver.FanDrv
+import Driver.RelayDrv
+import Driver.TimedDrv
+import Driver.ExitDrv
+import Driver.RcmdDrv
+import Driver.WcollDrv
+import Driver.PcpDrv
+import Driver.ModDrv
+import Driver.OptDrv
+import Driver.DshbakDrv
+import Driver.SigDrv
 
+/-- `pdshmodel <engine> <args...>`: one engine per model area; each reads protocol lines on stdin -/
 def main (args : List String) : IO UInt32 := do
   match args with
   | "cbuf" :: rest => Driver.CbufDrv.main rest
+  | "hl" :: rest => Driver.HlDrv.main rest
+  | "fan" :: rest => Driver.FanDrv.main rest
+  | "relay" :: rest => Driver.RelayDrv.main rest
+  | "timed" :: rest => Driver.TimedDrv.main rest
+  | "exit" :: rest => Driver.ExitDrv.main rest
+  | "rcmd" :: rest => Driver.RcmdDrv.main rest
+  | "wcoll" :: rest => Driver.WcollDrv.main rest
+  | "pcp" :: rest => Driver.PcpDrv.main rest
+  | "mod" :: rest => Driver.ModDrv.main rest
+  | "opt" :: rest => Driver.OptDrv.main rest
+  | "dshbak" :: rest => Driver.DshbakDrv.main rest
+  | "sig" :: rest => Driver.SigDrv.main rest
   | _ => IO.eprintln "usage: pdshmodel <engine> ..."; return 2
